@@ -11,7 +11,10 @@ Streams (domain `lh`, see ocaml/drv_lh.ml for the line formats):
      the environment may move during a history: json_global_set_string_hash (valid and invalid
      selections) while objects hold members, and a second object created under the then-current
      selection used in alternation with the first (objects are independent of each other and
-     of the selection after their creation);
+     of the selection after their creation); every public iteration macro in every definition
+     the headers offer: json_object_object_foreach exists in a GNU form and a portable strict-ISO-C
+     form (harness/drv_lh_ansi.c is compiled as such an application); both are compared after
+     every step and both are used for delete-current-while-iterating (ops x / y);
   L  the load-factor expression `count >= size * 0.66` against the model's binary64 emulation.
 
 The direct oracle is an ordered-dict model of the property text, applied to the
@@ -29,7 +32,7 @@ RULE = ("mode A: every op sequence of length <= 4 over {add,delete} x 3 keys on 
         "contains a successful delete, replace or table growth; distinct = distinct script lines among those")
 TRUSTED = ["Coq 8.16.1 kernel (coqc), no axioms (Print Assumptions: closed under the global context)",
            "extraction (ExtrOcamlBasic only) + ocaml/mdrv glue (ocaml/drv_lh.ml)",
-           "harness/drv_lh.c, xalloc.c, gcc -fsanitize=address,undefined",
+           "harness/drv_lh.c + drv_lh_ansi.c (strict ISO C view of the headers), xalloc.c, gcc -fsanitize=address,undefined",
            "hashlittle / perl-like hash are not modelled: the theorems hold for every hash function"]
 ASSUMPTIONS = ["binary64 round-to-nearest-even arithmetic for `size * 0.66` (SSE2; emulated exactly in the model and proved equal to "
                "66*size <= 100*count for 1 <= size <= INT_MAX)",
@@ -289,7 +292,7 @@ def gen_b(rng, tier):
                 live.discard(k)
             elif r < 0.93:
                 ks = [k for k in range(nk) if rng.random() < 0.35]
-                ops.append("x" + (",".join(map(str, ks)) or "-"))
+                ops.append(rng.choice("xy") + (",".join(map(str, ks)) or "-"))
                 for k in ks:
                     live.discard(k)
         if ops:
@@ -333,7 +336,7 @@ def gen_env(rng, tier):
                     k = rng.choice(sorted(live)); ops.append("d%d" % k); live.discard(k)
                 elif r < 0.93:
                     ks = [k for k in range(nk) if rng.random() < 0.3]
-                    ops.append("x" + (",".join(map(str, ks)) or "-"))
+                    ops.append(rng.choice("xy") + (",".join(map(str, ks)) or "-"))
                     for k in ks:
                         live.discard(k)
                 else:
@@ -356,6 +359,62 @@ def gen_env(rng, tier):
     return out
 
 
+def gen_fdel(rng, tier):
+    """delete-current-while-iterating as its own subject: objects of 1..40 members, the selected
+    set being none / all / first / last / every other / a random subset / absent keys only, through
+    BOTH definitions of json_object_object_foreach (x: GNU form, y: portable strict-ISO-C form),
+    repeated and interleaved with adds so that tombstones and re-linked chains are walked too"""
+    out = []
+    n = 60 if tier == "quick" else 800
+    for ci in range(n):
+        hsel = rng.choice([0, 1, 2])
+        nk = rng.choice([1, 2, 3, 5, 9, 16, 24, 40])
+        keys, used = [], set()
+        while len(keys) < nk:
+            k = rand_key(rng, used)
+            used.add(k); keys.append(k)
+        size = rng.choice([16, 16, 1, 2, 4, 7, rng.randint(9, 40)])
+        ktoks = []
+        for k in keys:
+            hx = k.encode("latin-1").hex() or "-"
+            if hsel == 2:
+                hx += "@%d" % rng.choice([3, 3, size - 1, rng.randrange(1 << 32)])
+            ktoks.append(hx)
+        ops = []
+        val = 0
+        order = []          # shadow of the insertion order, only to aim the selections
+        for rnd in range(rng.randint(1, 4)):
+            for k in rng.sample(range(nk), rng.randint(max(1, nk // 2), nk)):
+                val += 1
+                ops.append("a%d,%d,0" % (k, val))
+                if k not in order:
+                    order.append(k)
+            for _ in range(rng.randint(1, 3)):
+                shape = rng.choice(["none", "all", "first", "last", "alternate", "alternate1", "random", "absent", "all-but-last"])
+                if shape == "none":
+                    ks = []
+                elif shape == "all":
+                    ks = list(order)
+                elif shape == "first":
+                    ks = order[:1]
+                elif shape == "last":
+                    ks = order[-1:]
+                elif shape == "alternate":
+                    ks = order[0::2]
+                elif shape == "alternate1":
+                    ks = order[1::2]
+                elif shape == "all-but-last":
+                    ks = order[:-1]
+                elif shape == "absent":
+                    ks = [k for k in range(nk) if k not in order][:3]
+                else:
+                    ks = [k for k in order if rng.random() < 0.5]
+                ops.append(("x" if (ci + len(ops)) % 2 else "y") + (",".join(map(str, sorted(ks))) or "-"))
+                order = [k for k in order if k not in ks]
+        out.append(("lh B %d %d 0 %s %s" % (hsel, size, ",".join(ktoks), ";".join(ops)), {"kind": "B-foreach-delete"}))
+    return out
+
+
 def gen_l(rng, tier):
     out = [("lh L 1 4096 1", {"kind": "L-load-factor"}),
            ("lh L 50 2147483600 1048583", {"kind": "L-load-factor"}),     # step prime: all residues mod 50
@@ -369,7 +428,7 @@ def gen_l(rng, tier):
 
 
 def gen(rng, tier):
-    return gen_l(rng, tier) + gen_env(rng, tier) + gen_exhaustive(rng, tier) + gen_churn_a(rng, tier) + gen_b(rng, tier)
+    return gen_l(rng, tier) + gen_env(rng, tier) + gen_fdel(rng, tier) + gen_exhaustive(rng, tier) + gen_churn_a(rng, tier) + gen_b(rng, tier)
 
 
 # ------------------------------------------------------------------ direct oracle
@@ -452,7 +511,7 @@ def oracle(line, meta, impl):
                 if ret != want:
                     return ("ret", "delete returned %s, expected %s at op %d (%s)" % (ret, want, si, op))
                 d.pop(k, None)
-            elif c == "x":
+            elif c in "xy":              # y: the loop compiled from the portable definition of the macro
                 ks = set(int(x) for x in body.split(",")) if body != "-" else set()
                 want = [(str(k), v) for k, v in d.items()]
                 if plist(ret, 2) != want:
@@ -552,7 +611,7 @@ def search(rng, broken_lines):
         if p[1] == "A":
             for size in range(1, 9):
                 extra.append((" ".join(p[:2] + [str(size)] + p[3:]), {"kind": "search"}))
-    extra += gen_env(rng, "quick") + gen_churn_a(rng, "quick") + gen_b(rng, "quick") + gen_exhaustive(rng, "quick")[:6000]
+    extra += gen_env(rng, "quick") + gen_fdel(rng, "quick") + gen_churn_a(rng, "quick") + gen_b(rng, "quick") + gen_exhaustive(rng, "quick")[:6000]
     return extra
 
 
